@@ -40,6 +40,8 @@ const (
 	IbltNumBuckets = 1024
 	xorShelf       = "xorBucket"
 	ibltShelf      = "ibltBucket"
+	// payloadEventShelf records, per transaction, that its payload event has been saved (and is/was emitted).
+	payloadEventShelf = "payloadEvents"
 )
 
 // State has references to the DAG and the payload store.
@@ -202,6 +204,9 @@ func (s *state) Add(ctx context.Context, transaction Transaction, payload []byte
 			if err := s.saveEvent(tx, payloadEvent); err != nil {
 				return err
 			}
+			if err := markPayloadEventSaved(tx, transaction.Ref()); err != nil {
+				return err
+			}
 		}
 		if err := s.graph.add(tx, transaction); err != nil {
 			return err
@@ -313,10 +318,12 @@ func (s *state) WritePayload(ctx context.Context, transaction Transaction, paylo
 	}
 	payloadWritten := false
 	return s.db.Write(ctx, func(tx stoabs.WriteTx) error {
-		// Payload already present, nothing to do: its event was saved (and emitted) when the payload was written.
+		// The payload event of this transaction was already saved (and emitted), nothing to do.
 		// This happens when multiple peers respond to a TransactionPayloadQuery.
 		// Saving the event again would re-create jobs that subscribers already finished, causing them to be notified again.
-		if s.payloadStore.isPayloadPresent(tx, payloadHash) {
+		// This is decided per transaction, not per payload: other transactions may have exactly the same payload,
+		// each of them needs its own payload event.
+		if isPayloadEventSaved(tx, transaction.Ref()) {
 			return nil
 		}
 
@@ -326,12 +333,26 @@ func (s *state) WritePayload(ctx context.Context, transaction Transaction, paylo
 		if err := s.saveEvent(tx, event); err != nil {
 			return err
 		}
+		if err := markPayloadEventSaved(tx, transaction.Ref()); err != nil {
+			return err
+		}
 		return s.payloadStore.writePayload(tx, payloadHash, data)
 	}, stoabs.AfterCommit(func() {
 		if payloadWritten {
 			s.notify(event)
 		}
 	}), stoabs.WithWriteLock())
+}
+
+// isPayloadEventSaved returns whether the payload event of the given transaction has been saved before.
+func isPayloadEventSaved(tx stoabs.ReadTx, ref hash.SHA256Hash) bool {
+	_, err := tx.GetShelfReader(payloadEventShelf).Get(stoabs.NewHashKey(ref))
+	return err == nil
+}
+
+// markPayloadEventSaved records that the payload event of the given transaction has been saved.
+func markPayloadEventSaved(tx stoabs.WriteTx, ref hash.SHA256Hash) error {
+	return tx.GetShelfWriter(payloadEventShelf).Put(stoabs.NewHashKey(ref), []byte{1})
 }
 
 func (s *state) ReadPayload(ctx context.Context, hash hash.SHA256Hash) (payload []byte, err error) {
